@@ -96,8 +96,8 @@ TEXT = {
     },
     'C19': {
         'text': 'Partial: Prio2 parameter and packing arithmetic and the query-point exclusion. Verus proves Prio2::new (exact acceptance domain, no overflow), proof_length, the single-use rule, and that choose_eval_at never returns one of the 2N interpolation nodes (r^(2*next_pow2(input_len+1)) != 1 for every PRNG output stream) over the proved FP32::pow contract and the make_field! bodies of FieldPrio2::{pow,one,eq}; FieldPrio2 arithmetic is covered by C09.',
-        'note': 'Acceptance of 0/1 vectors and rejection of others (soundness) and the codecs are not decided. Termination of the rejection loop in choose_eval_at is probabilistic and not proved.',
-        'technique': 'function contracts on extracted real code (Verus)',
+        'note': 'The Prio2 message codecs and the wrong-length / wrong-role guards are decided by Kani (bounded lengths). Acceptance of 0/1 vectors and rejection of others (soundness) is not decided. Termination of the rejection loop in choose_eval_at is probabilistic and not proved.',
+        'technique': 'function contracts on extracted real code (Verus) + codec/guard contract harnesses on the real code (Kani)',
         'design_ref': 'DESIGN.md §4 C19',
     },
     'C20': {
